@@ -208,6 +208,11 @@ func (m *modernHandler) OnResourcePackResponse(bundle *ResponseBundle) (bool, er
 }
 
 func (m *modernHandler) HasPackAppliedByHash(hash []byte) bool {
+	if len(hash) == 0 {
+		// A pack without a hash cannot be recognised as already applied
+		// (an applied pack without a hash would otherwise match every other hashless pack).
+		return false
+	}
 	m.RLock()
 	defer m.RUnlock()
 	for _, info := range m.appliedPacks {
